@@ -279,6 +279,7 @@ var vC07Shapes = []string{
 	"token-variant", "token-missing-slot", "token-rekey",
 	"below-F", "weird-f",
 	"token-unsupported", "nonce-nodest", "costly-nodest",
+	"rechain-commit", "commit-foreign-source",
 	"token-extra-slot", "unknown-chain",
 }
 
@@ -414,9 +415,42 @@ func TestVerif_C07(t *testing.T) {
 		if copies < 2 {
 			copies = 2
 		}
+		// a commit report of chain c0 that nobody else knows, or that thr-1 honest oracles file (correctly) under c0
+		foreign := vC07Commit(c0, 500, 502, 777, []cciptypes.SeqNum{501})
+		if shape == "rechain-commit" || shape == "commit-foreign-source" {
+			isByz := map[commontypes.OracleID]bool{}
+			for _, o := range byz {
+				isByz[o] = true
+			}
+			hs := vPick(cr, []int{0, g.thr(c0) - 1, g.thr(c0) - 1})
+			for _, o := range g.pickOracles(len(g.ids), 0) {
+				if hs > 0 && !isByz[o] {
+					vC07AddCommit(g.ob(o), c0, foreign)
+					hs--
+				}
+			}
+		}
 		for _, o := range byz {
 			ob := g.ob(o)
 			switch shape {
+			case "rechain-commit": // the identical report (SourceChain = c0) filed under several known chain keys
+				keys := append(append([]cciptypes.ChainSelector{}, g.chains...), vC07Dest)
+				for _, k := range keys {
+					if k == c0 && cr.Bool() {
+						continue // with and without a copy under its own chain
+					}
+					vC07AddCommit(ob, k, foreign)
+				}
+			case "commit-foreign-source": // one report whose SourceChain differs from the key it is filed under
+				other := vC07Dest
+				if len(g.chains) > 1 && cr.Bool() {
+					for _, k := range g.chains {
+						if k != c0 {
+							other = k
+						}
+					}
+				}
+				vC07AddCommit(ob, other, foreign)
 			case "repeat-commit": // adjacent or with other reports in between
 				if l := ob.CommitReports[c0]; len(l) > 0 {
 					for k := 1; k < copies; k++ {
